@@ -25,6 +25,23 @@ theorem undo_restores (ts : List Entry) (items : List Item) (k : String) :
   rw [h1]
   simpa using h2 k
 
+/-- the undo loop run in PUSH order instead of reverse order (the realistic slip: `inserted.into_iter()`
+without `.rev()`) -/
+def undoForward (ts : List Entry) (log : UndoLog) : List Entry := log.foldl undoOne ts
+
+/-- **The reverse order of the undo loop is needed** (the converse of `undo_restores`, kernel-evaluated
+witness).  With the log replayed in push order, a batch that names one NEW template twice and then
+fails leaves a ghost entry behind: the name was unbound before the call and is bound after it.
+A batch without a repeated name does not show the difference, which is why `undo_restores`
+quantifies over batches with repetitions. -/
+theorem undo_forward_leaves_ghost :
+    ∃ (ts : List Entry) (items : List Item) (k : String),
+      eget ts k = none ∧
+      (eget (undoForward (insertBatch ts [] items).1 (insertBatch ts [] items).2.1) k).isSome = true := by
+  refine ⟨[], [.good ⟨"a", none, [], [], [], [], false, 1⟩, .good ⟨"a", none, [], [], [], [], false, 2⟩, .bad "b"], "a", ?_, ?_⟩
+  · decide
+  · decide
+
 /-- **A failing `add_raw_templates` is the identity**: every template with its parents, block
 lineage, size hint and autoescape flag, the component table and the configuration are as before,
 whatever the error was (syntax error in any position of the batch, or any error of
